@@ -165,12 +165,18 @@ class Recorder:
 class CapOr(GlobalStopCondition):
     """user-defined disjunction: inner condition OR a metaepoch cap. Pure pass-through + logging."""
 
-    def __init__(self, inner, cap: int, trace: Trace):
+    def __init__(self, inner, cap: int, trace: Trace, reads_best: bool = False):
         self.inner = inner
         self.cap = cap
         self.trace = trace
+        self.reads_best = reads_best  # a user condition of the kind "stop when the target fitness is reached"
 
     def __call__(self, tree) -> bool:
+        if self.reads_best:
+            try:
+                _ = tree.best_individual.fitness  # looked at, never used: reading must not change anything
+            except Exception:  # noqa: BLE001
+                pass
         real = bool(self.inner(tree))
         # (the cap also ends runs whose tree outgrows 40 demes: mechanisms without a LevelLimit can grow geometrically)
         capped = tree.metaepoch_count >= self.cap or sum(len(lv) for lv in tree.levels) > 40
@@ -656,7 +662,25 @@ def build_gsc(sc: dict, precision_problem):
     raise ValueError(k)
 
 
-def build_mechanism(sc: dict, trace: Trace, observe_chain: bool, decisions=None):
+def build_mechanism(sc: dict, trace: Trace, observe_chain: bool, decisions=None, raw=None):
+    """returns (mechanism, raw) - raw holds the un-wrapped SproutMechanism and its components so that a later run can
+    be given the very same objects (users routinely reuse one get_NBC_sprout() object for several trees)"""
+    if raw is not None:
+        mech = raw["mech"]
+        mech.candidates_generator = ObservedGenerator(raw["gen"], trace) if observe_chain else raw["gen"]
+        mech.deme_filter_chain = [ObservedDemeFilter(f, trace, i) for i, f in enumerate(raw["dfs"])] if observe_chain else list(raw["dfs"])
+        mech.tree_filter_chain = [ObservedTreeFilter(f, trace, i) for i, f in enumerate(raw["tfs"])] if observe_chain else list(raw["tfs"])
+        return mech, raw
+    mech = _build_raw_mechanism(sc, decisions)
+    raw = {"mech": mech, "gen": mech.candidates_generator, "dfs": list(mech.deme_filter_chain), "tfs": list(mech.tree_filter_chain)}
+    if observe_chain:
+        mech.candidates_generator = ObservedGenerator(mech.candidates_generator, trace)
+        mech.deme_filter_chain = [ObservedDemeFilter(f, trace, i) for i, f in enumerate(mech.deme_filter_chain)]
+        mech.tree_filter_chain = [ObservedTreeFilter(f, trace, i) for i, f in enumerate(mech.tree_filter_chain)]
+    return mech, raw
+
+
+def _build_raw_mechanism(sc: dict, decisions=None):
     s = sc["sprout"]
     ms = min(hi - lo for lo, hi in sc["box"])
     k = s["kind"]
@@ -697,10 +721,6 @@ def build_mechanism(sc: dict, trace: Trace, observe_chain: bool, decisions=None)
             elif f["kind"] == "SkipSameSprout":
                 tfs.append(sf.SkipSameSprout())
         mech = SproutMechanism(gen, dfs, tfs)
-    if observe_chain:
-        mech.candidates_generator = ObservedGenerator(mech.candidates_generator, trace)
-        mech.deme_filter_chain = [ObservedDemeFilter(f, trace, i) for i, f in enumerate(mech.deme_filter_chain)]
-        mech.tree_filter_chain = [ObservedTreeFilter(f, trace, i) for i, f in enumerate(mech.tree_filter_chain)]
     return mech
 
 
@@ -757,7 +777,7 @@ def crash_bucket(exc: BaseException) -> str:
 class Run:
     """one monitored execution of a scenario"""
 
-    def __init__(self, sc: dict, checkers=(), proxy_engines=False, observe_chain=False, sign=None, gsc_override=None):
+    def __init__(self, sc: dict, checkers=(), proxy_engines=False, observe_chain=False, sign=None, gsc_override=None, reuse_from=None):
         self.sc = sc
         self.checkers = list(checkers)
         self.trace = Trace()
@@ -770,6 +790,8 @@ class Run:
         self.observe_chain = observe_chain
         self.sign = sign
         self.gsc_override = gsc_override
+        self.reuse_from = reuse_from  # an earlier Run whose sprout-mechanism objects this run is given again
+        self.raw_mechanism = None
         self.level_problems: list = []
         self.level_layers: list = []
         self.recorders: list = []
@@ -806,8 +828,12 @@ class Run:
             levels.append(build_level(sc, i, probs[i], lsc, self.trace, self.proxy_engines))
         inner_gsc = self.gsc_override if self.gsc_override is not None else build_gsc(sc, precision_problem)
         self.inner_gsc = inner_gsc
-        self.gsc = CapOr(inner_gsc, int(sc["cap"]), self.trace)
-        self.mechanism = ObservedMechanism(build_mechanism(sc, self.trace, self.observe_chain, self.decisions), self.trace, sc)
+        self.gsc = CapOr(inner_gsc, int(sc["cap"]), self.trace, bool(sc.get("gsc_reads_best")))
+        raw_prev = self.reuse_from.raw_mechanism if self.reuse_from is not None else None
+        if raw_prev is not None and any(hasattr(c, "decisions") for c in [raw_prev["gen"]]):
+            raw_prev["gen"].decisions = self.decisions
+        mech, self.raw_mechanism = build_mechanism(sc, self.trace, self.observe_chain, self.decisions, raw_prev)
+        self.mechanism = ObservedMechanism(mech, self.trace, sc)
         opts = dict(sc["options"])
         cfg = TreeConfig(levels, self.gsc, self.mechanism, options=opts, config_class_to_deme_class={RandomSearchConfig: RandomSearchDeme})
         self.config = cfg
